@@ -38,22 +38,22 @@ func allHF(c *config.Blockchain) {
 // world is the prepared chain of the flag sub-checks.
 type world struct {
 	runner
-	cw        *chainx.World
-	UA, UB    util.Uint160
-	R         *neotest.Contract
-	rMethods  []rMethod
-	txHash    util.Uint256 // an on-chain transaction
-	blkHash   util.Uint256 // an on-chain block
-	natives   []state.Contract
-	declared  map[string]callflag.CallFlag // "Contract.method/n" -> RequiredFlags (reporting only, never the oracle)
-	syscalls  map[string]callflag.CallFlag // name -> RequiredFlags (reporting only)
-	nefBytes  []byte                       // NEF of U
-	mfNew     []byte                       // manifest of a not yet deployed U instance "UD"
-	mfUA      []byte                       // manifest of UA (for update)
-	nefD      []byte                       // NEF of a tiny contract with a _deploy method
-	mfNewD    []byte                       // its manifest under a new name
-	mfUAD     []byte                       // its manifest under UA's name (UA updating itself to it)
-	menus     map[smartcontract.ParamType][]argv
+	cw       *chainx.World
+	UA, UB   util.Uint160
+	R        *neotest.Contract
+	rMethods []rMethod
+	txHash   util.Uint256 // an on-chain transaction
+	blkHash  util.Uint256 // an on-chain block
+	natives  []state.Contract
+	declared map[string]callflag.CallFlag // "Contract.method/n" -> RequiredFlags (reporting only, never the oracle)
+	syscalls map[string]callflag.CallFlag // name -> RequiredFlags (reporting only)
+	nefBytes []byte                       // NEF of U
+	mfNew    []byte                       // manifest of a not yet deployed U instance "UD"
+	mfUA     []byte                       // manifest of UA (for update)
+	nefD     []byte                       // NEF of a tiny contract with a _deploy method
+	mfNewD   []byte                       // its manifest under a new name
+	mfUAD    []byte                       // its manifest under UA's name (UA updating itself to it)
+	menus    map[smartcontract.ParamType][]argv
 }
 
 // ---- raw contract R: one method per system call ------------------------------------
